@@ -405,7 +405,7 @@ def some_solver_installed(solvers=None):
     return False
 
 
-def sat_solve(F, cmd=None, sameas=None, verbose=0):
+def sat_solve(F, cmd=None, sameas=None, verbose=0, need_witness=True):
     """Determines whether a CNF is satisfiable or not.
 
     The satisfiability is determined using an external sat solver.  If
@@ -427,6 +427,11 @@ def sat_solve(F, cmd=None, sameas=None, verbose=0):
     verbose: int
        0 or less means no output. 1 shows the command line actually
        run. 2 outputs the solver output. (default: 0)
+
+    need_witness: bool
+       when False only the answer of the solver matters: a solver that
+       does not print the satisfying assignment (some do it just on
+       request) is good enough, and the witness is None. (default: True)
 
     Examples
     --------
@@ -505,15 +510,23 @@ def sat_solve(F, cmd=None, sameas=None, verbose=0):
             continue
         else:
             (result, witness) = s_func(F, solver_cmd, verbose=verbose)
-            if result and [abs(l) for l in witness] != list(
-                    range(1, F.number_of_variables() + 1)):
-                # no model, or just a part of it (e.g. the solver was
-                # killed while printing it): nothing we can return as
-                # a satisfying assignment
-                raise RuntimeError(
-                    "Error during SAT solver call: {}.\n".format(solver_cmd)
-                    + "The solver gave no complete satisfying assignment.")
-            return (result, witness)
+            if result and need_witness:
+                # Some solvers (minisat and its family) print the model
+                # up to the highest variable that occurs in a clause.
+                # Anything else which is not the complete model (no
+                # model at all, or a part of it because the solver was
+                # killed while printing it) is nothing we can return
+                # as a satisfying assignment.
+                n = F.number_of_variables()
+                used = max((abs(lit) for cls in F for lit in cls), default=0)
+                k = len(witness)
+                if [abs(l) for l in witness] != list(range(1, k + 1)) \
+                   or not (used <= k <= n):
+                    raise RuntimeError(
+                        "Error during SAT solver call: {}.\n".format(solver_cmd)
+                        + "The solver gave no complete satisfying assignment.")
+                witness = witness + [-v for v in range(k + 1, n + 1)]
+            return (result, witness if need_witness else None)
 
     # no solver was available.
     if len(solver_cmds) == 1:
